@@ -18,7 +18,16 @@ SUMI = z3.Function("SumI", z3.ArraySort(z3.IntSort(), z3.IntSort()), z3.IntSort(
 
 
 ROUND = z3.Function("round", z3.RealSort(), z3.IntSort())
+PRODR = z3.Function("ProdR", z3.ArraySort(z3.IntSort(), z3.RealSort()), z3.IntSort(), z3.IntSort(), z3.RealSort())
 PRODI = z3.Function("ProdI", z3.ArraySort(z3.IntSort(), z3.IntSort()), z3.IntSort(), z3.IntSort(), z3.IntSort())
+
+
+def prod_axioms():
+    """unfolding axioms of the ghost Prod over real arrays (recursion on the upper bound)"""
+    a = z3.Const("pa", z3.ArraySort(z3.IntSort(), z3.RealSort()))
+    lo, hi = z3.Ints("plo phi")
+    return [z3.ForAll([a, lo], PRODR(a, lo, lo) == 1, patterns=[PRODR(a, lo, lo)]),
+            z3.ForAll([a, lo, hi], z3.Implies(hi > lo, PRODR(a, lo, hi) == PRODR(a, lo, hi - 1) * z3.Select(a, hi - 1)), patterns=[PRODR(a, lo, hi)])]
 
 
 def sum_axioms():
